@@ -273,6 +273,8 @@ type explorer struct {
 	params   map[string]int
 	fixed    map[string]uint64
 	nondetMap bool
+	nondetMapMax int
+	nondetMapType string
 	xcheck   bool
 
 	// worker-lifetime
@@ -316,6 +318,7 @@ func (e *explorer) resetPath(prefix []Dec) {
 	e.notes = nil
 	e.scripts = nil
 	e.nondetMap = false
+	e.nondetMapType = ""
 	e.newFuncs, e.newStubs = nil, nil
 	e.locks = map[*value]*lockState{}
 	e.ghost = map[string]value{}
@@ -950,7 +953,14 @@ func intrinsic(name string) externalFn {
 	case "svStop":
 		return func(fr *frame, args []value) value { panic(stopPath{}) }
 	case "svNondetMapOrder":
-		return func(fr *frame, args []value) value { ex.nondetMap = truth(args[0]); return nil }
+		return func(fr *frame, args []value) value {
+			// nondeterministic iteration order for maps of the given type
+			// (substring of the type string) with 2..n live entries
+			ex.nondetMapType = strArg(args[0])
+			ex.nondetMapMax = int(asInt64(args[1]))
+			ex.nondetMap = ex.nondetMapMax >= 2
+			return nil
+		}
 	case "svIsSymbolic":
 		return func(fr *frame, args []value) value { return true }
 	case "svSecret":
